@@ -1,6 +1,7 @@
 package main
 
 import (
+	"go/types"
 	"fmt"
 	"go/constant"
 	"go/token"
@@ -60,18 +61,28 @@ func r04_1(c *RC) {
 					continue
 				}
 				call, ok := ex.Tuple.(*ssa.Call)
-				if !ok || !call.Common().IsInvoke() || (call.Common().Method.Name() != "Decrypt" && call.Common().Method.Name() != "DecryptWithNonce") || ex.Index != 0 {
+				if !ok || ex.Index != 0 {
+					bad = describe(l)
+					continue
+				}
+				what := ""
+				if call.Common().IsInvoke() && (call.Common().Method.Name() == "Decrypt" || call.Common().Method.Name() == "DecryptWithNonce") {
+					what = call.Common().Method.Name()
+				} else if sc := call.Common().StaticCallee(); sc != nil && isDecryptWrapper(sc, 0) {
+					// a local helper that returns nothing but the plaintext of a successful open
+					what = sc.Name()
+				} else {
 					bad = describe(l)
 					continue
 				}
 				// the error of that call must have been tested: the store block is not reachable from its error edge
-				es := errSuccessorOfTuple(call, 1)
+				es := errSuccessorOfTuple(call, call.Type().(*types.Tuple).Len()-1)
 				if es == nil {
-					bad = "result of " + call.Common().Method.Name() + " whose error is not tested"
+					bad = "result of " + what + " whose error is not tested"
 					continue
 				}
 				if reachableAvoiding(fn, es.Instrs[0], func(x ssa.Instruction) bool { return x == s.Instr }, nil) != nil {
-					bad = "result of " + call.Common().Method.Name() + " also on its error path"
+					bad = "result of " + what + " also on its error path"
 				}
 			}
 			if bad == "" {
@@ -486,4 +497,61 @@ func protocolNames(p *Prog) map[int64]string {
 		byVal[v] = n
 	}
 	return byVal
+}
+
+
+// isDecryptWrapper: fn's first result is, on every return, nil or the
+// plaintext (result #0) of a Decrypt / DecryptWithNonce call whose error edge
+// cannot reach that return (or, one level down, of another such wrapper).
+func isDecryptWrapper(fn *ssa.Function, depth int) bool {
+	if fn == nil || fn.Blocks == nil || depth > 2 || fn.Signature.Results().Len() < 2 {
+		return false
+	}
+	if relPkg(fn) != protoPkg && relPkg(fn) != "pkg/cipher" {
+		return false
+	}
+	ok := true
+	seenPlain := false
+	instrs(fn, func(_ *ssa.BasicBlock, _ int, in ssa.Instruction) {
+		r, isRet := in.(*ssa.Return)
+		if !isRet || !ok {
+			return
+		}
+		for _, l := range Leaves(retVal(r, 0), nil) {
+			if isNilConst(l) {
+				continue
+			}
+			ex, isEx := l.(*ssa.Extract)
+			if !isEx || ex.Index != 0 {
+				ok = false
+				return
+			}
+			call, isCall := ex.Tuple.(*ssa.Call)
+			if !isCall {
+				ok = false
+				return
+			}
+			good := call.Common().IsInvoke() && (call.Common().Method.Name() == "Decrypt" || call.Common().Method.Name() == "DecryptWithNonce")
+			if !good {
+				if sc := call.Common().StaticCallee(); sc != nil && sc != fn && isDecryptWrapper(sc, depth+1) {
+					good = true
+				}
+			}
+			if !good {
+				ok = false
+				return
+			}
+			es := errSuccessorOfTuple(call, call.Type().(*types.Tuple).Len()-1)
+			if es == nil || reachableAvoiding(fn, es.Instrs[0], func(x ssa.Instruction) bool { return x == in }, nil) != nil {
+				// reachable from the error edge: acceptable only if this return carries a non-nil error
+				if retIsNil(r, len(r.Results)-1) {
+					ok = false
+					return
+				}
+				continue
+			}
+			seenPlain = true
+		}
+	})
+	return ok && seenPlain
 }
